@@ -113,7 +113,10 @@ def sigTagType (v : UInt32) : UInt64 :=
     (if eqU32Id v i then 8 else 0) ||| (if eqTypeU32 t v then 16 else 0) ||| (if eqU32Type v t then 32 else 0) |||
     (if eqTypeU32 t w then 64 else 0) ||| (if eqIdType i (TagType.ofU32 w) then 128 else 0) |||
     (if eqIdU32 i w then 256 else 0) ||| (if i.toTagType == t then 512 else 0) |||
-    (if t.toId == i then 1024 else 0)
+    (if t.toId == i then 1024 else 0) |||
+    (if eqTypeId (.custom v) i then 2048 else 0) ||| (if eqIdType i (.custom v) then 4096 else 0) |||
+    (if eqTypeU32 (.custom v) v then 8192 else 0) ||| (if eqU32Type v (.custom v) then 16384 else 0) |||
+    (if (TagType.custom v).toU32 == v then 32768 else 0) ||| (if (TagType.custom v).toId == i then 65536 else 0)
   (t.index.toUInt64 <<< 48) ^^^ (bits.toUInt64 <<< 32) ^^^ (t.toU32.toUInt64) ^^^ (i.toTagType.toId.toU32.toUInt64 <<< 7)
 
 def sigMemType (v : UInt32) : UInt64 :=
@@ -121,7 +124,9 @@ def sigMemType (v : UInt32) : UInt64 :=
   let w := v ^^^ 1
   let bits : UInt32 :=
     (if eqMatIdType v t then 1 else 0) ||| (if eqMatTypeId t v then 2 else 0) |||
-    (if eqMatIdType w t then 4 else 0) ||| (if eqMatTypeId (MemoryAreaType.ofU32 w) v then 8 else 0)
+    (if eqMatIdType w t then 4 else 0) ||| (if eqMatTypeId (MemoryAreaType.ofU32 w) v then 8 else 0) |||
+    (if eqMatIdType v (.custom v) then 16 else 0) ||| (if eqMatTypeId (.custom v) v then 32 else 0) |||
+    (if (MemoryAreaType.custom v).toU32 == v then 64 else 0)
   (t.index.toUInt64 <<< 48) ^^^ (bits.toUInt64 <<< 32) ^^^ (t.toU32.toUInt64)
 
 def sigElfType (v : UInt32) : UInt64 := UInt64.ofNat (ElfSectionType.ofRaw v).discr
